@@ -219,7 +219,7 @@ var c06Templates = []string{
 	// inner function, pipeline continuation lines, lambda; nested match with multi-statement arms; record field on a second line
 	c06Prelude + "type U =\n  | A of int\n  | B\n\ntype R = {X: int;\n          Y: string}\n\nlet f (xs:[]int) =\n  let g (x:int) =@4@x + 1\n  xs\n  |> slice.Map g\n  |> slice.Filter (fun x -> x > 2)\n\nlet h (u:U) (v:U) =\n  match u with\n  | A i ->\n    let k =@6@i + 1\n    match v with\n    | A j ->@6@k + j\n    | _ ->@6@k\n  | _ ->@4@0\n\nlet mk (a:int) =\n  let r = {X=a; Y=\"s\"}\n  r.X\n",
 	// if / elif / else as value, nested blocks
-	"package main\n\nlet sel (a:int) =\n  if a > 2 then\n    let b =@6@a * 2\n    b\n  elif a > 1 then\n    2\n  else\n    let c = 3\n    c + a\n",
+	"package main\n\nlet sel (a:int) =\n  if a > 2 then\n    let b =@6@a * 2\n    b\n  elif a > 1 then\n    2\n  else\n    let c = 3\n    c + a\n\nlet pairs (a:int) =\n  let (p, q) =@4@(a, a + 1)\n  let (r, _) =@4@(p, q)\n  p + q + r\n",
 	// a default-less inner match as the last expression of an outer arm, the outer default arm (needed / not needed) right after it
 	"package main\n\ntype W =\n  | P\n  | Q\n\ntype U =\n  | A of int\n  | B\n  | C\n\nlet h1 (u:U) (w:W) =\n  match u with\n  | A r ->\n    match w with\n    | P -> r * 3\n    | Q ->@6@r * 6\n  | _ -> 0\n\nlet h2 (u:U) (w:W) =\n  match u with\n  | B -> 1\n  | C -> 2\n  | A r ->\n    match w with\n    | P -> r\n    | Q -> 6\n  | _ -> 0\n\nlet h3 (s:string) (w:W) =\n  match s with\n  | \"x\" ->\n    match w with\n    | P -> 1\n    | Q -> 2\n  | _ -> 0\n",
 	// bodies that start in the middle of a line (one-line let, match arm, else) with the pipeline broken before |>:
